@@ -858,12 +858,13 @@ impl<'de, R: Read<'de>> Parser<R> {
     // such as `+.foo` or `-..`; the dot has been peeked, but not consumed.
     fn parse_sign_dot_symbol(&mut self, prefix: &str) -> Result<String> {
         self.eat_char();
-        match self.peek_or_null()? {
+        match self.peek()? {
+            None => Err(self.peek_error(ErrorCode::EofWhileParsingValue)),
             // `+.5` would be a number, `+.` is not a valid token
-            next if next == 0 || is_delimiter(next) || next.is_ascii_digit() => {
+            Some(next) if is_delimiter(next) || next.is_ascii_digit() => {
                 Err(self.peek_error(ErrorCode::InvalidNumber))
             }
-            _ => self.parse_symbol_suffix(prefix),
+            Some(_) => self.parse_symbol_suffix(prefix),
         }
     }
 
